@@ -39,6 +39,7 @@ WHY = {
  "C15-h2": "value-level: a hand-written LZ4 literal run for tiny payloads omits the length-extension byte at exactly 15 bytes; a rule 'compressed bytes come from the library' would also reject a correct fast path",
  "C17-i4": "value-level: the payload offset of SendSerializedBlock computed from the checksum enum's value (1 + int(checksum)) instead of 1 or 5",
  "C13-k2": "error discipline across a call: deleteElementInLabel turns a logged condition into a returned error, and its caller has already rewritten the block — the verdict and the write are in different functions",
+ "C17-l3": "value-level: GetBlocks fills only the first block of its reply buffer with the background value (copy of one block instead of the loop over the buffer)",
  "C20-d4": "value-level: ascending instead of descending order of swap-with-last deletions",
 }
 by = collections.defaultdict(list)
